@@ -732,6 +732,18 @@ func renderVal(v ssa.Value, depth int) string {
 		return renderVal(x.X, depth+1) + "[" + renderVal(x.Index, depth+1) + "]"
 	case *ssa.MakeInterface:
 		return renderVal(x.X, depth+1)
+	case *ssa.Phi:
+		var es []string
+		for _, e := range x.Edges {
+			if e == ssa.Value(x) {
+				continue
+			}
+			es = append(es, renderVal(e, depth+2))
+		}
+		sort.Strings(es)
+		return "phi{" + strings.Join(dedup(es), "|") + "}"
+	case *ssa.Extract:
+		return renderVal(x.Tuple, depth+1) + "#" + fmt.Sprint(x.Index)
 	}
 	return "?" + v.Type().String()
 }
